@@ -68,6 +68,7 @@ func c12Decls() []c12Decl {
 		{ID: "lit-empty", IsLit: true, Lit: "", Protected: true},
 		{ID: "lit-dot", IsLit: true, Lit: ".", Protected: true},
 		{ID: "lit-dotdot", IsLit: true, Lit: "..", Protected: true},
+		{ID: "lit-dotdot-dotdot", IsLit: true, Lit: "../..", Protected: true},
 		{ID: "var-empty", Var: "OUT_D", VarRHS: `""`, Protected: true},
 		{ID: "var-dot", Var: "OUT_E", VarRHS: `"."`, Protected: true},
 		{ID: "var-projdir", Var: "OUT_F", VarRHS: `join(".")`, Protected: true},
@@ -134,6 +135,8 @@ type c12Case struct {
 	SpokLink    bool     `json:"spok_link,omitempty"`    // the project's spokfile is a symbolic link to a file in another directory
 	Cache       string   `json:"cache,omitempty"`        // state of .spok: "" directory with cache.json | "no-json" | "absent" | "dangling" (cache.json is a dangling link) | "extra" (further files in it)
 	BrokenClean bool     `json:"broken_clean,omitempty"` // a task named clean exists but depends on an undefined task
+	DotsParent  bool     `json:"dots_parent,omitempty"`  // the directory above the project is called "..w"
+	CleanArgs   bool     `json:"clean_args,omitempty"`   // task names are given next to --clean (they change nothing)
 }
 
 func c12DeclByID(id string) c12Decl {
@@ -263,6 +266,8 @@ func c12Cases(tier string) []c12Case {
 			out = append(out, c12Case{Decls: s, Mask: full, Cache: cs})
 		}
 		out = append(out, c12Case{Decls: s, Mask: full, BrokenClean: true})
+		// a parent directory whose name starts with two dots; task names given next to --clean
+		out = append(out, c12Case{Decls: s, Mask: full, DotsParent: true}, c12Case{Decls: s, Mask: full, CleanArgs: true})
 		// the same with a symlinked spokfile, and invoked from a sub-directory of the project, for the full tree
 		out = append(out, c12Case{Decls: s, Mask: full, SpokLink: true})
 		joinRelative := false
@@ -284,11 +289,14 @@ func c12Run(root string, c c12Case) (obs []c12Obs, outcome string) {
 	t := bin.Tree{Root: root}
 	t.Reset()
 	projRel := "home/w/proj"
+	if c.DotsParent {
+		projRel = "home/..w/proj"
+	}
 	proj := t.Mkdir(projRel)
 	ctl := t.Mkdir("ctl")
 	home := filepath.Join(root, "home")
 	t.File("home/other.txt", "other\n")
-	t.File("home/w/sibling.txt", "sibling\n")
+	t.File(filepath.Dir(projRel)+"/sibling.txt", "sibling\n")
 	if c.SpokLink {
 		t.File("home/shared/spokfile", strings.ReplaceAll(c.text(), "@PROJ@", proj))
 		os.Symlink(filepath.Join(root, "home/shared/spokfile"), filepath.Join(proj, "spokfile"))
@@ -357,7 +365,14 @@ func c12Run(root string, c c12Case) (obs []c12Obs, outcome string) {
 		t.File(projRel+"/keepdir/inner/a.gen", "same name as a glob match, elsewhere\n")
 	}
 	before = bin.Snap(root)
-	o := bin.Run(cwd, home, []string{"VLOG=" + vlog, "VCTL=" + ctl, "arch=arm"}, "--clean")
+	cleanArgs := []string{"--clean"}
+	if c.CleanArgs {
+		cleanArgs = []string{"--clean", "build"}
+		if len(c.Decls) > 1 {
+			cleanArgs = []string{"pack", "--clean"}
+		}
+	}
+	o := bin.Run(cwd, home, []string{"VLOG=" + vlog, "VCTL=" + ctl, "arch=arm"}, cleanArgs...)
 	after := bin.Snap(root)
 	outcome = fmt.Sprintf("exit%d", o.Exit)
 	if o.Died() {
